@@ -11,14 +11,20 @@ if [ -n "$(git -C /repo status --porcelain)" ]; then echo "/repo working tree is
 CHECKS="$*"
 if [ -z "$CHECKS" ]; then CHECKS=$(python3 -c "import json;print(' '.join(json.load(open('$DIR/meta.json')).get('detected_by',[])))"); fi
 TIER=$(python3 -c "import json;print(json.load(open('$DIR/meta.json')).get('tier','quick'))" 2>/dev/null || echo quick)
+# a seed written against the tree before one of the later fix: commits is run on that tree: the named
+# commits are reverted first (uncommitted), and the detection must carry the seed's own signature
+REVERT=$(python3 -c "import json;print(' '.join(json.load(open('$DIR/meta.json')).get('revert_first',[])))")
+EXPECT=$(python3 -c "import json;print(json.load(open('$DIR/meta.json')).get('expect_sig',''))")
+trap 'git -C /repo revert --abort >/dev/null 2>&1; git -C /repo reset -q --hard HEAD; git -C /repo clean -fdq' EXIT
+for c in $REVERT; do git -C /repo revert -n "$c" >/dev/null 2>&1 || { echo "cannot revert $c"; exit 2; }; done
 git -C /repo apply "$PWD/$DIR/patch.diff" || { echo "patch does not apply"; exit 2; }
-trap 'git -C /repo checkout -- . ; git -C /repo clean -fdq' EXIT
 RC=0
 SAVE=$(mktemp -d)
 cp -r evidence "$SAVE/evidence"; cp -r replays "$SAVE/replays" 2>/dev/null
 for id in $CHECKS; do
   out=$(./check "$id" "$TIER" 2>&1); code=$?
-  if [ $code -eq 1 ] && echo "$out" | grep -aq "^VIOLATION property=$id "; then
+  if [ $code -eq 1 ] && echo "$out" | grep -aq "^VIOLATION property=$id " && { [ -z "$EXPECT" ] || echo "$out" | grep -a 'sig=' | grep -aqE "$EXPECT"; }; then
+    [ -n "$EXPECT" ] && out=$(echo "$out" | grep -aE "$EXPECT|^VIOLATION")
     echo "DETECTED  $NAME by $id ($TIER): $(echo "$out" | grep -a 'sig=' | head -2 | cut -c1-220 | tr '\n' ' ')"
   else
     echo "MISSED    $NAME by $id ($TIER): exit $code"; RC=1
